@@ -1,10 +1,140 @@
 package main
 
 import (
+	"bytes"
+	"context"
+	"fmt"
+	"time"
+
+	"github.com/plgd-dev/go-coap/v3/message"
+	"github.com/plgd-dev/go-coap/v3/message/codes"
+	"github.com/plgd-dev/go-coap/v3/message/pool"
+
 	"verif/ev"
 	"verif/mcx"
+	"verif/vrt"
+	"verif/worlds/tcpw"
 )
 
-// addSessionScenarios adds the scenarios over the real session types (udp/server.Session over a
-// fake packet conn, tcp/client.Session over an in-memory stream, servers) - see sessions_*.go.
-func addSessionScenarios(r *ev.Run, scs *[]*mcx.Scenario) {}
+// Session-level scenarios: the REAL tcp/client.Session (Run loop, Close, shutdown, on-close
+// callbacks, Done) over an in-memory net.Conn, including a write that is blocked because the peer
+// stopped reading, a half-open stream, peer close, and Close called from two goroutines.
+
+type tcfg struct {
+	Op      string // do | observe | ping | write-blocked | idle
+	Intr    string // cancel | close2 (two goroutines call Close) | peer-close | peer-error
+	Preempt int
+}
+
+func (c tcfg) String() string {
+	return fmt.Sprintf("tcp-session op=%s interrupt=%s preempt<=%d", c.Op, c.Intr, c.Preempt)
+}
+
+func tcpScenario(c tcfg) *mcx.Scenario {
+	return &mcx.Scenario{
+		Name:        c.String(),
+		Bounds:      mcx.Bounds{Preempt: c.Preempt, Env: -1, Select: 0},
+		DeadlockSig: "blocked-forever/tcp-" + c.Op + "/" + c.Intr,
+		Body: func(s *vrt.Sched) func() (string, []mcx.Finding) {
+			var fs []mcx.Finding
+			result := "not-returned"
+			returned := false
+			closes := 0
+			onClose := 0
+			var w *tcpw.World
+			vrt.App("setup", func() {
+				w = tcpw.New(tcpw.Opts{LimitTotal: 2, LimitEndpoint: 2, QueueSize: 2, DisableCSM: true})
+				w.CC.AddOnClose(func() { onClose++ })
+				w.CC.AddOnClose(func() { onClose++ })
+				ctx, cancel := context.WithCancel(context.Background())
+				if c.Op == "write-blocked" {
+					w.St.BlockWrites = true
+				}
+				vrt.App("op", func() {
+					var err error
+					switch c.Op {
+					case "do":
+						req := w.CC.AcquireMessage(ctx)
+						req.SetCode(codes.GET)
+						req.SetToken(message.Token{0xD1})
+						_ = req.SetPath("/a")
+						_, err = w.CC.Do(req)
+					case "write-blocked":
+						req := w.CC.AcquireMessage(ctx)
+						req.SetCode(codes.POST)
+						req.SetToken(message.Token{0xD1})
+						_ = req.SetPath("/a")
+						req.SetBody(bytes.NewReader(bytes.Repeat([]byte("x"), 64)))
+						_, err = w.CC.Do(req)
+					case "observe":
+						_, err = w.CC.Observe(ctx, "/obs", func(*pool.Message) {})
+					case "ping":
+						err = w.CC.Ping(ctx)
+					case "idle":
+						vrt.Recv(w.CC.Done())
+					}
+					returned = true
+					result = fmt.Sprint(err)
+				})
+				switch c.Intr {
+				case "cancel":
+					vrt.App("interrupter", func() {
+						cancel()
+						if c.Op == "idle" {
+							_ = w.CC.Close()
+							closes++
+						}
+					})
+				case "close2":
+					for i := 0; i < 2; i++ {
+						vrt.App(fmt.Sprintf("closer%d", i), func() {
+							_ = w.CC.Close()
+							closes++
+						})
+					}
+				case "peer-close":
+					vrt.App("peer", func() { w.St.PeerClosed = true })
+				case "peer-error":
+					vrt.App("peer", func() { w.St.ReadErr = fmt.Errorf("read: connection reset by peer") })
+				}
+				_ = time.Second
+			})
+			return func() (string, []mcx.Finding) {
+				fail := func(sig, format string, a ...any) {
+					fs = append(fs, mcx.Finding{Sig: sig, What: c.String() + ": " + fmt.Sprintf(format, a...)})
+				}
+				closed := c.Intr != "cancel" || c.Op == "idle"
+				if closed && !s.Deadlock {
+					select {
+					case <-w.CC.Done():
+					default:
+						fail("tcp/done-not-closed", "Done() is not closed although the connection was closed (Run returned=%v err=%v)", w.RunDone, w.RunErr)
+					}
+					if !w.RunDone {
+						fail("tcp/run-did-not-return", "Session.Run did not return after the connection was closed")
+					}
+					if onClose != 2 {
+						fail("tcp/on-close-callback-count", "2 on-close callbacks were registered, %d executions happened", onClose)
+					}
+					if !returned {
+						fail("tcp/op-never-returned", "the operation did not return")
+					}
+				}
+				return result, fs
+			}
+		},
+	}
+}
+
+// addSessionScenarios adds the scenarios over the real session types.
+func addSessionScenarios(r *ev.Run, scs *[]*mcx.Scenario) {
+	for _, op := range []string{"do", "observe", "ping", "write-blocked", "idle"} {
+		for _, in := range []string{"cancel", "close2", "peer-close", "peer-error"} {
+			if op == "write-blocked" && in == "cancel" {
+				continue // a write blocked in the socket cannot observe a context (stated assumption); Close must still work
+			}
+			*scs = append(*scs, tcpScenario(tcfg{Op: op, Intr: in, Preempt: ev.Pick(r, 1, 2)}))
+		}
+	}
+	addUDPSessionScenarios(r, scs)
+}
